@@ -1285,6 +1285,15 @@ def signature(clause, case, impl=None):
                 dt4 = dicodec.di_to_dt(b4)
                 if all(_outcome(lambda: dt4.validate(dtcodec.json_to_py(v)))[0] == 'ok' for v in refused):
                     return 'C03:sound:tuple->limits:unordered-pair'
+            # … or two recorded findings at once (all-optional struct and LimitsType in one pair): named after the first that
+            # accounts for a refused witness
+            b5 = unlimit(a, b2)
+            if b5 != b4 and b5 != b2 and refused:
+                dt5, dt2 = dicodec.di_to_dt(b5), dicodec.di_to_dt(b2)
+                if all(_outcome(lambda: dt5.validate(dtcodec.json_to_py(v)))[0] == 'ok' for v in refused):
+                    if any(_outcome(lambda: dt2.validate(dtcodec.json_to_py(v)))[0] == 'ok' for v in refused):
+                        return 'C03:sound:struct->struct:optional-vs-mandatory'
+                    return 'C03:sound:tuple->limits:unordered-pair'
         return f"C03:{clause}:{dicodec.node_kind(a)}->{dicodec.node_kind(b)}"
     if case['k'] == 'rebuild' and clause == 'behaviour' and 'limits' in dicodec.classes(case['tree']):
         # attribution only: do original and rebuilt type agree on every probe once the LimitsType nodes of the original are the
@@ -1572,7 +1581,7 @@ def replay(ctx, rp):
     req, impl = req_of(case)
     ans = ctx.driver.batch([req])[0]
     print('case     :', json.dumps({k: v for k, v in case.items() if k not in ('probes', 'witnesses')})[:1500])
-    if case['k'] in ('rebuild', 'copy', 'compat'):
+    if case['k'] in ('rebuild', 'copy', 'compat', 'cmdcompat'):
         print('what     :', describe(case, impl))
     print('impl     :', json.dumps(impl)[:2000])
     print('model    :', json.dumps(ans.get('model'))[:2000])
